@@ -59,6 +59,7 @@ type c20Chan struct {
 	heartbeat     bool
 	feed          func([]byte)
 	slowWrite     int32        // >0: the next transport write stalls for that many milliseconds
+	slowGate      atomic.Value // chan struct{}: a slow handler in front of the observer holds idle events until it is closed
 	stall         atomic.Value // chan struct{}: the background sender's next Writev stalls until it is closed
 	stalled       int32
 	pendingL      []time.Time // feed instants not yet matched to a passage (reads)
@@ -147,6 +148,12 @@ func (a *c20After) HandleWrite(ctx netty.OutboundContext, message netty.Message)
 }
 
 func (a *c20After) HandleEvent(ctx netty.EventContext, ev netty.Event) {
+	if g, _ := a.ch.slowGate.Load().(chan struct{}); g != nil {
+		switch ev.(type) {
+		case netty.ReadIdleEvent, netty.WriteIdleEvent:
+			<-g // a slow event handler in front of the observer
+		}
+	}
 	now := time.Now()
 	kind := ""
 	switch ev.(type) {
@@ -288,6 +295,8 @@ func c20Channel(c *core.Ctx, id string, idx int, idle time.Duration) {
 	// the context the channel was created with ends in the middle of the silence; nobody closes the channel and its read
 	// loop is parked in the transport, so the channel stays open (no inactive event) and idleness keeps being reported
 	parentEnds := idx%9 == 4 && !pendingClose && !st.closeInActive && !preCancelled
+	// an event handler slower than the idle period is still busy with an idle event when the channel goes inactive
+	slowTail := idx%7 == 6 && !pendingClose && !st.closeInActive && !preCancelled && !parentEnds
 	var parentCancel context.CancelFunc
 	if parentEnds {
 		st.heartbeat = false // a heartbeat would wake the read loop, which then closes the channel itself
@@ -462,7 +471,27 @@ func c20Channel(c *core.Ctx, id string, idx int, idle time.Duration) {
 		}
 	}
 	pendingEvents, pendingJudged := 0, false
-	if pendingClose {
+	if slowTail {
+		gate := make(chan struct{})
+		st.slowGate.Store(gate)
+		st.mu.Lock()
+		n0 := len(st.allCheck)
+		st.mu.Unlock()
+		for i := 0; i < 1500; i++ { // the next callback runs into the slow handler
+			st.mu.Lock()
+			n := len(st.allCheck)
+			st.mu.Unlock()
+			if n > n0 {
+				break
+			}
+			time.Sleep(time.Millisecond)
+		}
+		time.Sleep(idle * 14 / 10) // it stays busy for more than one further idle period
+		rig.Ch.Close(errSentinel)
+		time.Sleep(50 * time.Millisecond)
+		close(gate)
+		c.Count("slow_event_handler_across_inactive", 1)
+	} else if pendingClose {
 		stall := make(chan struct{})
 		st.stall.Store(stall)
 		rig.Ch.Write([]byte{'.'})
@@ -532,6 +561,17 @@ func c20Channel(c *core.Ctx, id string, idx int, idle time.Duration) {
 		}
 	}
 	c.Count("idle_events_judged", int64(judged))
+	if !st.I.IsZero() {
+		afterI := 0
+		for _, e := range st.events {
+			if e.hasC && !e.C.After(st.I) && e.E.After(st.I) {
+				afterI++
+			}
+		}
+		if afterI > 1 {
+			viol("more-than-one-idle-event-after-inactive", fmt.Sprintf("%d idle events reached the handlers behind the idle handler after the inactive event had passed it (their timer callbacks had all passed the expiry check before): more than the one callback that may be in flight", afterI))
+		}
+	}
 	if (st.read && len(st.events) > 0 && st.events[0].kind != "read") || (!st.read && len(st.events) > 0 && st.events[0].kind != "write") {
 		viol("wrong-event-kind", "the handler delivered the other handler's event type")
 	}
